@@ -46,6 +46,7 @@ W_TEXT = """%(name)s DEFINITIONS AUTOMATIC TAGS ::= BEGIN
   KIntBig ::= INTEGER (0..18446744073709551615)
   KEnum ::= ENUMERATED { a(0), b(1), c(5), ..., d(9) }
   KReal ::= REAL
+  KFloat ::= REAL (WITH COMPONENTS { mantissa (-16777215..16777215), base (2), exponent (-149..104) })
   KOid ::= OBJECT IDENTIFIER
   KRoid ::= RELATIVE-OID
   KBits ::= BIT STRING
@@ -71,7 +72,7 @@ W_TEXT = """%(name)s DEFINITIONS AUTOMATIC TAGS ::= BEGIN
   Inner ::= SEQUENCE { n INTEGER (0..65535), s UTF8String }
   KSeq ::= SEQUENCE { b BOOLEAN, i INTEGER, e KEnum, r REAL, o OBJECT IDENTIFIER, bs BIT STRING, os OCTET STRING OPTIONAL,
                       u UTF8String, in Inner, l SEQUENCE OF INTEGER, c CHOICE { x NULL, y BIT STRING, z Inner }, ob BIT STRING OPTIONAL, t UTCTime }
-  KSeq2 ::= SEQUENCE { n NULL, ib KIntBig, ro RELATIVE-OID, bm BMPString, gt GeneralizedTime OPTIONAL, bn KBitsN, rr REAL OPTIONAL, so SET OF BIT STRING, ee KEnum OPTIONAL }
+  KSeq2 ::= SEQUENCE { n NULL, ib KIntBig, ro RELATIVE-OID, bm BMPString, gt GeneralizedTime OPTIONAL, bn KBitsN, rr REAL OPTIONAL, so SET OF BIT STRING, ee KEnum OPTIONAL, fl KFloat, fo KFloat OPTIONAL }
   KSet ::= SET { b BOOLEAN, bs BIT STRING, r REAL OPTIONAL, in Inner }
   KChoice ::= CHOICE { b BOOLEAN, bs BIT STRING, r REAL, in Inner, l SET OF BIT STRING, o OBJECT IDENTIFIER }
   KSeqOf ::= SEQUENCE OF BIT STRING
@@ -186,6 +187,9 @@ def directed(tn, rng):
         return [tlv(10, int_content(v)) for v in (0, 1, 5, 9)]
     if tn == "KReal":
         xs = [0.0, -0.0, float("inf"), float("-inf"), float("nan"), 1.0, 1.5, -1.5, 0.1, 1e300, -2.5e-300, 3.0, 65536.0]
+        return [tlv(9, c) for c in (real_content(x) for x in xs) if c is not None]
+    if tn == "KFloat":
+        xs = [0.0, -0.0, float("inf"), float("-inf"), float("nan"), 1.0, 1.5, -1.5, 3.0, 65536.0, 0.15625]
         return [tlv(9, c) for c in (real_content(x) for x in xs) if c is not None]
     if tn == "KOid":
         return [tlv(6, oid_content(a)) for a in ((0, 0), (1, 2, 840, 113549), (2, 999, 2**40, 1), (2, 39), (1, 3, 6, 1, 4, 1, 2**31 - 1))]
@@ -698,14 +702,14 @@ def post(run, results, model):
                 diff.append(("wiped", span, mf.get("wiped")))
             if diff or not mf:
                 run.violation("correspondence:HeapX.layout", {"what": "the layout of the leaf structure in the C (offsetof / sizeof / specifics) differs from the model's table: %s" % diff,
-                                                              "module": m["text"], "type": tn, "c": l, "model": o, "command_line": "layout %s" % tn}, no_input=True)
+                                                              "module": m["text"], "asn1c_opts": " ".join(m.get("opts", ())), "type": tn, "c": l, "model": o, "command_line": "layout %s" % tn}, no_input=True)
         elif what == "leaf":
             h, d = a, b
             run.count("c14x_leaf_reset_%s" % line.split()[1])
             if o != d["post"]:
                 run.violation("correspondence:HeapX.leaf_free", {"what": "bytes of a leaf structure after ASN_STRUCT_RESET: the C has %s, the model's leaf_free gives %s (before: %s)" % (d["post"], o, d["pre"]),
-                                                                 "module": m["text"], "type": h["case"]["tn"], "command_line": "hist %s %s" % (h["case"]["tn"], ";".join(h["ops"])),
-                                                                 "model_line": line}, no_input=(d.get("zero") == "1"))
+                                                                 "module": m["text"], "asn1c_opts": " ".join(m.get("opts", ())), "type": h["case"]["tn"],
+                                                                 "command_line": "hist %s %s" % (h["case"]["tn"], ";".join(h["ops"])), "model_line": line}, no_input=(d.get("zero") == "1"))
         else:
             h, d, j = a, b, c
             run.count("c14x_fail_in_container")
